@@ -312,6 +312,9 @@ Hypothesis H2ilist : forall x ob sx sxo lx l, hget h0 x = Some ob -> is_annk (ok
   bget (obody ob) NM_ANN = Some (R sx) -> hget h0 sx = Some sxo ->
   bget (obody sxo) NM_ILIST = Some (R lx) -> hget h0 lx = Some l -> okind l = KList.
 
+Hypothesis H2ilist2 : forall x ob lx l, hget h0 x = Some ob -> okind ob = KAnnSet ->
+  bget (obody ob) NM_ILIST = Some (R lx) -> hget h0 lx = Some l -> okind l = KList.
+
 Notation RecSpec := (RecSpec h0 seeds).
 Notation U := (U h0).
 Notation res_ok := (res_ok h0 seeds).
@@ -1169,6 +1172,495 @@ Proof.
   intros s sa s2 E L N P a b I Hb. destruct (Z_lt_dec b (hlen (sh sa))) as [Lt|Ge].
   - apply P; [assumption | lia].
   - apply N; [assumption | lia].
+Qed.
+
+
+(* ---- one level of copy.deepcopy (second pass) -------------------------------------------------- *)
+
+Lemma ext2_trans' : forall a b c, hlen (sh a) <= hlen (sh b) -> Ext2 a b -> Ext2 b c -> Ext2 a c.
+Proof.
+  intros a b c L [A1 [A2 A3]] [B1 [B2 B3]]. split; [|split].
+  - auto.
+  - intros x y I. destruct (B2 x y I) as [J|J]; [apply A2; assumption | right; lia].
+  - intros o ob k v G I. destruct (A3 o ob k v G I) as [ob1 [v1 [G1 I1]]]. eapply B3; eassumption.
+Qed.
+
+Definition KeysOK (s : st) (ob : obj) (y : Z) : Prop :=
+  forall k v, In (k, v) (obody ob) ->
+    not_carried (okind ob) k \/ exists k' v', In (k', v') (body_of s y) /\ vrel (sc s) k k'.
+
+Lemma keysok_ext : forall s s' ob y, Ext2 s s' -> KeysOK s ob y -> KeysOK s' ob y.
+Proof.
+  intros s s' ob y E K k v I. destruct (K k v I) as [N|[k' [v' [I' V']]]]; [left; exact N|]. right.
+  destruct (key_persists s s' y k' v' E I') as [v1 I1]. exists k', v1. split; [exact I1|].
+  eapply vrel_mono; [exact (proj1 E) | exact V'].
+Qed.
+
+Lemma frame_finish : forall s s1 s2 x ob, Inv2 s -> Ext2 s s1 -> hlen (sh s1) = hlen (sh s) + 1 -> Loop2 s1 s2 ->
+  In (x, hlen (sh s)) (sc s1) -> hget h0 x = Some ob -> 0 <= x < n0 -> KeysOK s2 ob (hlen (sh s)) ->
+  Inv2 s2 /\ Ext2 s s2 /\ vrel (sc s2) (R x) (R (hlen (sh s))) /\ NewPresent s s2.
+Proof.
+  intros s s1 s2 x ob J F1 L1 L2 IN G Hx KO.
+  assert (IN2 : In (x, hlen (sh s)) (sc s2)) by (apply (proj1 (l_ext2 _ _ L2)); exact IN).
+  split; [exact (l_inv2 _ _ L2)|]. split; [|split].
+  - eapply ext2_trans'; [|exact F1 | exact (l_ext2 _ _ L2)]. lia.
+  - left. exact IN2.
+  - eapply newpresent_frame with (sa := s1); [exact F1 | lia | exact (l_new _ _ L2) |].
+    intros a b I Hb. assert (b = hlen (sh s)) by lia. subst b.
+    assert (a = x) by (eapply (j_uniq _ (l_inv2 _ _ L2)); eassumption). subst a.
+    eapply present_from_keys; eassumption.
+Qed.
+
+Lemma In_nth_error_values : forall (b : list (val * val)) n v, nth_error (values b) n = Some v ->
+  exists k, nth_error b n = Some (k, v).
+Proof.
+  induction b as [|[k0 v0] r IH]; intros [|n] v H; simpl in *; try discriminate.
+  - inversion H; subst. eauto.
+  - apply IH. exact H.
+Qed.
+
+Lemma list_source_entries : forall o ob, hget h0 o = Some ob -> (okind ob = KList \/ okind ob = KTuple) ->
+  forall j a, nth_error (values (obody ob)) j = Some a -> In (pidx (0 + Z.of_nat j), a) (obody ob).
+Proof.
+  intros o ob G K j a N. destruct (In_nth_error_values _ _ _ N) as [k N'].
+  assert (E := H2listkeys o ob j (k, a) G K N'). simpl in E. subst k. simpl.
+  eapply nth_error_In. exact N'.
+Qed.
+
+Lemma list_keysok : forall s o ob y, hget h0 o = Some ob -> (okind ob = KList \/ okind ob = KTuple) ->
+  (forall j a, nth_error (values (obody ob)) j = Some a -> exists v', In (pidx (0 + Z.of_nat j), v') (body_of s y)) ->
+  KeysOK s ob y.
+Proof.
+  intros s o ob y G K H k v I. right. destruct (In_nth_error _ _ I) as [n N].
+  assert (E := H2listkeys o ob n (k, v) G K N). simpl in E. subst k.
+  assert (NV : nth_error (values (obody ob)) n = Some v).
+  { unfold values. rewrite nth_error_map. rewrite N. reflexivity. }
+  destruct (H n v NV) as [v' I']. exists (pidx (Z.of_nat n)), v'. split; [exact I' | reflexivity].
+Qed.
+
+Lemma old_values_vsrc2 : forall o ob, hget h0 o = Some ob -> is_annk (okind ob) = false ->
+  Forall vsrc2 (values (obody ob)).
+Proof.
+  intros o ob G K. apply Forall_forall. intros v I. apply In_values in I. destruct I as [k I].
+  destruct (old_entry_vsrc2 o ob k v G I) as [_ X]; [|exact X]. intros [A _]. congruence.
+Qed.
+
+Lemma old_entries_vsrc2 : forall o ob, hget h0 o = Some ob -> is_annk (okind ob) = false ->
+  Forall (fun e => vsrc2 (fst e) /\ vsrc2 (snd e)) (obody ob).
+Proof.
+  intros o ob G K. apply Forall_forall. intros [k v] I. simpl.
+  apply (old_entry_vsrc2 o ob k v G I). intros [A _]. congruence.
+Qed.
+
+
+Lemma new_annset_shape : forall s cls tg,
+  let sa := fst (new_annset s cls tg) in let y := hlen (sh s) in
+  hget (sh sa) y = Some (mkObj cls KAnnSet [(NM_ILIST, R (y + 1)); (NM_ISET, R (y + 2)); (NM_TARGET, tg)])
+  /\ hget (sh sa) (y + 1) = Some (mkObj CLS_LIST KList [])
+  /\ hget (sh sa) (y + 2) = Some (mkObj CLS_SET KSet [])
+  /\ hlen (sh sa) = y + 3
+  /\ (forall o, o < y -> hget (sh sa) o = hget (sh s) o).
+Proof.
+  intros s cls tg. cbv zeta. rewrite new_annset_eq. cbn [fst].
+  set (s1 := fst (alloc s (mkObj cls KAnnSet []))).
+  set (s2 := fst (alloc s1 (mkObj CLS_LIST KList []))).
+  set (s3 := fst (alloc s2 (mkObj CLS_SET KSet []))).
+  assert (P0 := hlen_nonneg (sh s)).
+  assert (L1 : hlen (sh s1) = hlen (sh s) + 1) by (unfold s1; simpl; apply hlen_app1).
+  assert (L2 : hlen (sh s2) = hlen (sh s) + 2) by (unfold s2, s1; simpl; rewrite !hlen_app1; lia).
+  assert (L3 : hlen (sh s3) = hlen (sh s) + 3) by (unfold s3, s2, s1; simpl; rewrite !hlen_app1; lia).
+  assert (G1 : hget (sh s1) (hlen (sh s)) = Some (mkObj cls KAnnSet [])) by (unfold s1; simpl; apply hget_app_new).
+  assert (G2 : hget (sh s2) (hlen (sh s1)) = Some (mkObj CLS_LIST KList [])) by (unfold s2; simpl; apply hget_app_new).
+  assert (G3 : hget (sh s3) (hlen (sh s2)) = Some (mkObj CLS_SET KSet [])) by (unfold s3; simpl; apply hget_app_new).
+  assert (Q1 : sh s1 = sh s ++ [mkObj cls KAnnSet []]) by reflexivity.
+  assert (Q2 : sh s2 = sh s1 ++ [mkObj CLS_LIST KList []]) by reflexivity.
+  assert (Q3 : sh s3 = sh s2 ++ [mkObj CLS_SET KSet []]) by reflexivity.
+  assert (G13 : hget (sh s3) (hlen (sh s)) = Some (mkObj cls KAnnSet [])).
+  { rewrite Q3. rewrite hget_app_old by lia. rewrite Q2. rewrite hget_app_old by lia. exact G1. }
+  assert (G23 : hget (sh s3) (hlen (sh s1)) = Some (mkObj CLS_LIST KList [])).
+  { rewrite Q3. rewrite hget_app_old by lia. exact G2. }
+  rewrite L1, L2 in *.
+  split; [|split; [|split; [|split]]].
+  - erewrite put_get_same; [|erewrite put_get_same; [|erewrite put_get_same; [|exact G13]]; reflexivity]; reflexivity.
+  - rewrite !put_get_other by lia. exact G23.
+  - rewrite !put_get_other by lia. exact G3.
+  - rewrite !put_hlen. exact L3.
+  - intros o Lt. rewrite !put_get_other by lia. rewrite Q3. rewrite hget_app_old by lia.
+    rewrite Q2. rewrite hget_app_old by lia. rewrite Q1. apply hget_app_old. lia.
+Qed.
+
+Lemma put_note_memo_comm : forall s y k v a b,
+  note (memo_set (put s y k v) a b) a b = put (memo_set (note s a b) a b) y k v.
+Proof. intros. unfold put, note, memo_set. simpl. destruct (hget (sh s) y); reflexivity. Qed.
+
+Lemma keysok_list_ext : forall s s' (ob : obj) y, Ext2 s s' ->
+  (forall j a, nth_error (values (obody ob)) j = Some a -> exists v', In (pidx (0 + Z.of_nat j), v') (body_of s y)) ->
+  (forall j a, nth_error (values (obody ob)) j = Some a -> exists v', In (pidx (0 + Z.of_nat j), v') (body_of s' y)).
+Proof.
+  intros s s' ob y E H j a N. destruct (H j a N) as [v' I']. eapply key_persists; eassumption.
+Qed.
+
+Lemma dc_step2 : forall rec f, RecSpecB rec f -> RecSpecB (dc_step rec) (S f).
+Proof.
+  intros rec f RB. split; [apply (dc_step_spec h0 seeds Hclosed Hitems Hnames Hkeys); exact (proj1 RB)|].
+  intros s v IV J [Vs NO] Uf s' v' H. unfold dc_step in H. destruct v as [p|x].
+  { inversion H; subst. split; [exact J|]. split; [apply ext2_refl|]. split; [reflexivity|].
+    apply newpresent_none; [exact J | lia]. }
+  simpl in Vs. simpl in NO. destruct (alookup x (sm s)) as [y|] eqn:ML.
+  { inversion H; subst. split; [exact J|]. split; [apply ext2_refl|]. split; [|apply newpresent_none; [exact J | lia]].
+    destruct (i_memo _ _ _ IV x y ML) as [_ [V EQ]]. simpl.
+    destruct (Z_lt_dec y n0) as [Lt|Ge].
+    - right. rewrite (EQ Lt). split; [reflexivity | exact Vs].
+    - destruct (j_msc _ J x y ML ltac:(lia)) as [I|O]; [left; exact I | contradiction]. }
+  rewrite (i_old _ _ _ IV x) in H by lia. destruct (hget_in_range h0 x Vs) as [ob G]. rewrite G in H.
+  destruct (new_copy_spec h0 seeds s x ob IV Vs ML) as [I1 [E1 [Y1 [K1 [U1 L1]]]]].
+  destruct (new_copy2 s x ob IV J Vs G ML) as [J1 [F1 IN1]].
+  assert (N := i_len _ _ _ IV).
+  assert (Uf1 : (U (fst (new_copy s x ob)) < f)%nat) by lia.
+  destruct (okind ob) eqn:KO.
+  - (* KAtomic *)
+    inversion H; subst. split; [exact J|]. split; [apply ext2_refl|]. split; [|apply newpresent_none; [exact J | lia]].
+    right. split; [reflexivity | exact Vs].
+  - (* KList *)
+    destruct (new_copy s x ob) as [s1 y] eqn:NC. cbn [fst snd] in *. subst y.
+    destruct (copy_append rec s1 (hlen (sh s)) 0 (values (obody ob))) as [s2| |] eqn:LP; simpl in H; try discriminate.
+    inversion H; subst s' v'. clear H.
+    destruct (copy_append2 (values (obody ob)) rec f s1 (hlen (sh s)) 0 KList x ob RB I1 J1 Uf1) with (s' := s2) as [L2 KP]; auto.
+    + split; [reflexivity | discriminate].
+    + apply (old_values_vsrc2 x ob G). rewrite KO. reflexivity.
+    + apply (list_source_entries x ob G). left. exact KO.
+    + eapply frame_finish; try eassumption. eapply list_keysok; [exact G | left; exact KO | exact KP].
+  - (* KDict *)
+    destruct (new_copy s x ob) as [s1 y] eqn:NC. cbn [fst snd] in *. subst y.
+    destruct (copy_entries rec true s1 (hlen (sh s)) (obody ob)) as [s2| |] eqn:LP; simpl in H; try discriminate.
+    inversion H; subst s' v'. clear H.
+    destruct (copy_entries2 (obody ob) rec f true s1 (hlen (sh s)) KDict x ob RB I1 J1 Uf1) with (s' := s2) as [L2 KP]; auto.
+    + split; [reflexivity | discriminate].
+    + apply (old_entries_vsrc2 x ob G). rewrite KO. reflexivity.
+    + eapply frame_finish; try eassumption. intros k v I. right. apply (KP k v I).
+  - (* KSet *)
+    destruct (forallb (fun e => is_prim (fst e) && is_prim (snd e)) (obody ob)) eqn:FA; [|discriminate].
+    cbn [alloc] in H. inversion H; subst s' v'. clear H.
+    assert (PR : forall k v, In (k, v) (obody ob) -> (exists p, k = P p) /\ (exists q, v = P q)).
+    { intros k v IN. rewrite forallb_forall in FA. apply FA in IN. simpl in IN.
+      apply andb_true_iff in IN. destruct IN as [A B]. destruct k; [|discriminate]. destruct v; [|discriminate]. eauto. }
+    assert (Ia : Inv (fst (alloc s ob))).
+    { apply inv_alloc; [exact IV| | |].
+      - intros k v IN. destruct (PR k v IN) as [[p Ep] [q Eq]]. subst. split; exact Logic.I.
+      - rewrite KO. intros C. discriminate C.
+      - rewrite KO. intros C. discriminate C. }
+    assert (J' : Inv2 (note (memo_set (fst (alloc s ob)) x (hlen (sh s))) x (hlen (sh s)))).
+    { apply (inv2_new_pair s x ob IV J Vs G eq_refl ob); auto.
+      - intros k v IN. exists k, v. destruct (PR k v IN) as [[p Ep] [q Eq]]. subst. repeat split; auto.
+      - rewrite KO. intros C. discriminate C.
+      - rewrite KO. intros C. discriminate C. }
+    split; [exact J'|]. split; [apply ext2_new_pair|]. split; [left; left; reflexivity|].
+    intros a b IN Hb. simpl in IN. destruct IN as [IN|IN]; [|destruct (j_scr _ J a b IN); lia].
+    inversion IN; subst a b. intros oa oy Ga Gy k v Ik. right.
+    rewrite G in Ga. inversion Ga; subst oa. simpl in Gy. rewrite hget_app_new in Gy. inversion Gy; subst oy.
+    exists k, v. split; [exact Ik|]. destruct (PR k v Ik) as [[p Ep] _]. subst. reflexivity.
+  - (* KTuple *)
+    destruct (new_copy s x ob) as [s1 y] eqn:NC. cbn [fst snd] in *. subst y.
+    destruct (copy_append rec s1 (hlen (sh s)) 0 (values (obody ob))) as [s2| |] eqn:LP; simpl in H; try discriminate.
+    inversion H; subst s' v'. clear H.
+    destruct (copy_append2 (values (obody ob)) rec f s1 (hlen (sh s)) 0 KTuple x ob RB I1 J1 Uf1) with (s' := s2) as [L2 KP]; auto.
+    + split; [reflexivity | discriminate].
+    + apply (old_values_vsrc2 x ob G). rewrite KO. reflexivity.
+    + apply (list_source_entries x ob G). right. exact KO.
+    + eapply frame_finish; try eassumption. eapply list_keysok; [exact G | right; exact KO | exact KP].
+  - (* KPlain *)
+    destruct (new_copy s x ob) as [s1 y] eqn:NC. cbn [fst snd] in *. subst y.
+    destruct (plain_fields rec [] s1 (hlen (sh s)) (obody ob)) as [s2| |] eqn:LP; simpl in H; try discriminate.
+    inversion H; subst s' v'. clear H.
+    destruct (plain_fields2 (obody ob) rec f [] s1 (hlen (sh s)) KPlain x ob RB I1 J1 Uf1) with (s' := s2) as [L2 KP]; auto.
+    + discriminate.
+    + intros C. discriminate C.
+    + eapply old_fields; [exact Hclosed | exact Hkeys | exact G | tauto].
+    + intros k v IN _. destruct (old_entry_vsrc2 x ob k v G IN) as [_ X]; [|exact X]. rewrite KO. intros [C _]. discriminate C.
+    + eapply frame_finish; try eassumption. intros k v I. right.
+      destruct (KP k v I eq_refl) as [v' I']. exists k, v'. split; [exact I'|].
+      destruct (Hkeys x ob k v G ltac:(tauto) I) as [p Ep]. subst. reflexivity.
+  - (* KAnnotable *)
+    destruct (new_copy s x ob) as [s1 y] eqn:NC. cbn [fst snd] in *. subst y.
+    destruct (annotable_fields rec s1 (hlen (sh s)) (obody ob)) as [s2| |] eqn:LP; simpl in H; try discriminate.
+    destruct (deep_copy_annotations_from rec s2 (hlen (sh s)) x) as [s3| |] eqn:DC; simpl in H; try discriminate.
+    inversion H; subst s' v'. clear H.
+    destruct (annotable_fields2 (obody ob) rec f s1 (hlen (sh s)) KAnnotable x ob RB I1 J1 Uf1) with (s' := s2) as [L2 KP]; auto.
+    + discriminate.
+    + eapply old_fields; [exact Hclosed | exact Hkeys | exact G | tauto].
+    + intros k v IN NE. destruct (old_entry_vsrc2 x ob k v G IN) as [_ X]; [|exact X]. intros [_ C]. contradiction.
+    + assert (L23 : Loop2 s2 s3).
+      { eapply dcaf2 with (kd := KAnnotable) (sob := ob); try eassumption.
+        - exact (l_inv _ _ L2).
+        - exact (l_inv2 _ _ L2).
+        - eapply U_lt_ext; [exact (l_ext _ _ L2) | exact Uf1].
+        - destruct (l_ext _ _ L2) as [LL _]. lia.
+        - eapply kind_ext; [exact (l_ext _ _ L2) | exact K1].
+        - reflexivity.
+        - apply (proj1 (l_ext2 _ _ L2)). exact IN1.
+        - rewrite KO. reflexivity. }
+      eapply frame_finish with (s1 := s1); try eassumption; [eapply loop2_trans; eassumption|].
+      apply keysok_ext with (s := s2); [exact (l_ext2 _ _ L23)|].
+      intros k v I. destruct (val_eqb k NM_ANN) eqn:EA.
+      * left. left. rewrite KO. split; [reflexivity | apply val_eqb_eq; exact EA].
+      * right. apply val_eqb_neq in EA. destruct (KP k v I EA) as [v' I']. exists k, v'. split; [exact I'|].
+        destruct (Hkeys x ob k v G ltac:(tauto) I) as [p Ep]. subst. reflexivity.
+  - (* KAnnSet *)
+    destruct (bget (obody ob) NM_TARGET) as [tg|] eqn:BT; [|discriminate].
+    assert (TGS : ~ (is_annk (okind ob) = true /\ NM_TARGET = NM_ANN)) by (intros [_ C]; discriminate C).
+    destruct (old_entry_vsrc2 x ob NM_TARGET tg G (bget_In _ _ _ BT) TGS) as [_ [Vtg NOtg]].
+    destruct (match tg with
+              | R t => match alookup t (sm s) with Some t' => Ok (R t') | None => Err KeyErr end
+              | P 0 => if snone s then Ok PNone else Err KeyErr
+              | P _ => Err KeyErr end) as [tg'| |] eqn:ET; cbn [bind] in H; try discriminate.
+    assert (TG : vok h0 seeds (hlen (sh s)) tg' /\ vrel (sc s) tg tg').
+    { destruct tg as [q|t].
+      - destruct q; try discriminate. destruct (snone s); [|discriminate]. inversion ET. split; [exact Logic.I | reflexivity].
+      - destruct (alookup t (sm s)) as [t'|] eqn:MT; [|discriminate]. inversion ET; subst.
+        destruct (i_memo _ _ _ IV t t' MT) as [_ [V EQ]]. split; [exact V|]. simpl. simpl in Vtg, NOtg.
+        destruct (Z_lt_dec t' n0) as [Lt|Ge].
+        + right. rewrite (EQ Lt). split; [reflexivity | exact Vtg].
+        + destruct (j_msc _ J t t' MT ltac:(lia)) as [I|O]; [left; exact I | contradiction]. }
+    destruct TG as [Vt VRt].
+    destruct (new_annset_spec h0 seeds s (ocls ob) tg' IV Vt) as [Ia [Ea [Ya Ka]]].
+    destruct (new_annset2 s (ocls ob) tg' IV J Vt) as [La SCa].
+    destruct (new_annset_shape s (ocls ob) tg') as [SH0 [SH1 [SH2 [SHL SHO]]]].
+    destruct (new_annset s (ocls ob) tg') as [sa o] eqn:NA. cbn [fst snd] in *. subst o.
+    set (y := hlen (sh s)) in *.
+    set (s2 := note (memo_set sa x y) x y) in *.
+    assert (I2 : Inv s2).
+    { apply inv_note. apply inv_memo_set; [exact Ia | exact Vs | left; unfold y; lia | intro; unfold y in *; lia]. }
+    assert (J2 : Inv2 s2).
+    { unfold s2. rewrite note_memo_comm. apply inv2_memo_set; [|intros _; left; left; reflexivity].
+      apply inv2_note; [exact Ia | exact (l_inv2 _ _ La) | exact Vs | unfold y; lia | | |].
+      - rewrite SCa. apply not_in_range_new; [exact J | unfold y; lia].
+      - exists ob. eexists. split; [exact G|]. split; [exact SH0|]. split; [reflexivity|].
+        split; [rewrite KO; reflexivity|]. intros k0 v0 IN. simpl in IN.
+        destruct IN as [IN|[IN|[IN|[]]]]; inversion IN; subst k0 v0.
+        + left. right. rewrite KO. split; [reflexivity | left; reflexivity].
+        + left. right. rewrite KO. split; [reflexivity | right; reflexivity].
+        + right. exists NM_TARGET, tg. split; [apply bget_In; exact BT|]. split; [reflexivity|].
+          eapply vrel_mono; [|exact VRt]. intros p Ip. right. rewrite SCa. exact Ip.
+      - intros o ob' Ho Go.
+        assert (NE : forall k, bget (obody ob') k <> Some (R y)).
+        { intros k B. destruct (Z_lt_dec o y) as [Lt|Ge].
+          - rewrite (SHO o Lt) in Go.
+            assert (X := fresh_refs_lt s o ob' k (R y) y IV Ho Go (bget_In _ _ _ B) (or_intror eq_refl)).
+            unfold y in X. lia.
+          - assert (R0 := hget_Some_range _ _ _ Go). rewrite SHL in R0.
+            assert (CASES : o = y \/ o = y + 1 \/ o = y + 2) by lia.
+            destruct CASES as [E|[E|E]]; subst o.
+            + rewrite SH0 in Go. inversion Go; subst ob'. apply bget_In in B. simpl in B.
+              destruct B as [B|[B|[B|[]]]]; inversion B; try lia.
+              subst tg'. simpl in Vt. destruct Vt as [Vt|[[_ Vt] _]]; unfold y in *; lia.
+            + rewrite SH1 in Go. inversion Go; subst ob'. discriminate B.
+            + rewrite SH2 in Go. inversion Go; subst ob'. discriminate B. }
+        split; [intros _; apply NE|]. intros _. split; apply NE. }
+    assert (Ea2 : Ext sa s2) by (eapply ext_trans; [apply ext_memo_set | apply ext_note]).
+    assert (F2 : Ext2 s s2).
+    { destruct (l_ext2 _ _ La) as [A1 [A2 A3]]. split; [|split].
+      - intros p Ip. right. simpl. rewrite SCa. exact Ip.
+      - intros a b [E|I]; [inversion E; subst; right; unfold y; lia|]. simpl in I. rewrite SCa in I. left. exact I.
+      - intros o0 ob0 k v G0 I0. exact (A3 o0 ob0 k v G0 I0). }
+    destruct (bget (obody ob) NM_ILIST) as [[?|lx]|] eqn:BL; try discriminate.
+    assert (Vl : 0 <= lx < n0).
+    { destruct (Hclosed _ _ _ _ G (bget_In _ _ _ BL)) as [_ X]. exact X. }
+    destruct (annset_items rec s2 y (values (body_of s2 lx))) as [s5| |] eqn:AI; simpl in H; try discriminate.
+    inversion H; subst s' v'. clear H.
+    assert (U2 : (U s2 < f)%nat).
+    { assert (X : (U s2 < U s)%nat); [|lia].
+      eapply (U_after_memo h0); [eapply ext_trans; [exact Ea | exact Ea2] | exact Vs | exact ML |].
+      simpl. rewrite Z.eqb_refl. reflexivity. }
+    assert (L25 : Loop2 s2 s5).
+    { eapply annset_items2 with (o := y); [exact RB | exact I2 | exact J2 | exact U2 | unfold y; lia | | | exact AI].
+      - eapply kind_ext; [exact Ea2 | exact Ka].
+      - rewrite (body_of_old h0 seeds s2 lx I2) by lia. destruct (hget h0 lx) as [l|] eqn:GL; [|constructor].
+        apply Forall_forall. intros v0 I0. apply In_values in I0. destruct I0 as [k0 I0].
+        destruct (old_entry_vsrc2 lx l k0 v0 GL I0) as [_ X]; [|exact X].
+        intros [AKl C]. rewrite (H2ilist2 x ob lx l G KO BL GL) in AKl. discriminate AKl. }
+    split; [exact (l_inv2 _ _ L25)|]. split; [|split].
+    + eapply ext2_trans'; [|exact F2 | exact (l_ext2 _ _ L25)].
+      destruct (l_ext _ _ La). destruct Ea2. lia.
+    + left. apply (proj1 (l_ext2 _ _ L25)). left. reflexivity.
+    + eapply newpresent_frame with (sa := s2); [exact F2 | destruct (l_ext _ _ La); destruct Ea2; lia | exact (l_new _ _ L25) |].
+      intros a b I Hb.
+      assert (HL2 : hlen (sh s2) = y + 3) by exact SHL.
+      assert (Ix5 : In (x, y) (sc s5)) by (apply (proj1 (l_ext2 _ _ L25)); left; reflexivity).
+      destruct (Z.eq_dec b y) as [E|E].
+      * subst b. assert (a = x) by (eapply (j_uniq _ (l_inv2 _ _ L25)); eassumption). subst a.
+        eapply present_from_keys; [exact G|]. intros k v Ik.
+        destruct (val_eqb k NM_TARGET) eqn:ET2.
+        -- right. apply val_eqb_eq in ET2. subst k.
+           assert (I0 : In (NM_TARGET, tg') (body_of s2 y)).
+           { unfold body_of. change (sh s2) with (sh sa). rewrite SH0. simpl. right. right. left. reflexivity. }
+           destruct (key_persists s2 s5 y NM_TARGET tg' (l_ext2 _ _ L25) I0) as [v1 IK1].
+           exists NM_TARGET, v1. split; [exact IK1 | reflexivity].
+        -- left. right. rewrite KO. split; [reflexivity | apply val_eqb_neq; exact ET2].
+      * (* the two containers are not recorded *)
+        exfalso. destruct ((proj1 (proj2 (l_ext2 _ _ L25))) a b I) as [I2'|Hge]; [|lia].
+        simpl in I2'. destruct I2' as [E2|I2']; [inversion E2; subst; contradiction|].
+        rewrite SCa in I2'. destruct (j_scr _ J a b I2'). unfold y in *. lia.
+  - (* KTaxon *)
+    destruct (new_copy s x ob) as [s1 y] eqn:NC. cbn [fst snd] in *. subst y.
+    destruct (plain_fields rec [NM_ANN] s1 (hlen (sh s)) (obody ob)) as [s2| |] eqn:LP; simpl in H; try discriminate.
+    destruct (deep_copy_annotations_from rec s2 (hlen (sh s)) x) as [s3| |] eqn:DC; simpl in H; try discriminate.
+    inversion H; subst s' v'. clear H.
+    destruct (plain_fields2 (obody ob) rec f [NM_ANN] s1 (hlen (sh s)) KTaxon x ob RB I1 J1 Uf1) with (s' := s2) as [L2 KP]; auto.
+    + discriminate.
+    + intros _. left. reflexivity.
+    + eapply old_fields; [exact Hclosed | exact Hkeys | exact G | tauto].
+    + intros k v IN NS. destruct (old_entry_vsrc2 x ob k v G IN) as [_ X]; [|exact X].
+      intros [_ C]. subst k. simpl in NS. discriminate NS.
+    + assert (L23 : Loop2 s2 s3).
+      { eapply dcaf2 with (kd := KTaxon) (sob := ob); try eassumption.
+        - exact (l_inv _ _ L2).
+        - exact (l_inv2 _ _ L2).
+        - eapply U_lt_ext; [exact (l_ext _ _ L2) | exact Uf1].
+        - destruct (l_ext _ _ L2) as [LL _]. lia.
+        - eapply kind_ext; [exact (l_ext _ _ L2) | exact K1].
+        - reflexivity.
+        - apply (proj1 (l_ext2 _ _ L2)). exact IN1.
+        - rewrite KO. reflexivity. }
+      eapply frame_finish with (s1 := s1); try eassumption; [eapply loop2_trans; eassumption|].
+      apply keysok_ext with (s := s2); [exact (l_ext2 _ _ L23)|].
+      intros k v I. destruct (val_eqb k NM_ANN) eqn:EA.
+      * left. left. rewrite KO. split; [reflexivity | apply val_eqb_eq; exact EA].
+      * right. destruct (KP k v I) as [v1 IK1]; [simpl; rewrite EA; reflexivity|]. exists k, v1. split; [exact IK1|].
+        destruct (Hkeys x ob k v G ltac:(tauto) I) as [p Ep]. subst. reflexivity.
+  - (* KNamespace *)
+    destruct (new_copy s x ob) as [s1 y] eqn:NC. cbn [fst snd] in *. subst y.
+    destruct (bget (obody ob) NM_TAXA) as [[?|lt]|] eqn:BT; try discriminate.
+    assert (Vl : 0 <= lt < n0).
+    { destruct (Hclosed _ _ _ _ G (bget_In _ _ _ BT)) as [_ X]. exact X. }
+    destruct (H2taxa x ob lt G KO BT) as [lo [GL [KL CL]]].
+    cbn [alloc] in H.
+    set (y := hlen (sh s)) in *.
+    set (s2 := fst (alloc s1 (mkObj CLS_LIST KList []))) in *.
+    change (mkSt (sh s1 ++ [mkObj CLS_LIST KList []]) (sm s1) (snone s1) (sc s1)) with s2 in H.
+    set (l := hlen (sh s1)) in *.
+    rewrite put_note_memo_comm in H.
+    set (sn := memo_set (note s2 lt l) lt l) in *.
+    set (s3 := put sn y NM_TAXA (R l)) in *.
+    assert (I2 : Inv s2) by (apply inv_alloc_empty; exact I1).
+    assert (J2 : Inv2 s2) by (apply inv2_alloc; auto; simpl; intros; discriminate).
+    assert (L2 : hlen (sh s2) = hlen (sh s1) + 1) by (unfold s2; simpl; apply hlen_app1).
+    assert (K2 : kind_at (sh s2) l = Some KList) by apply (kind_alloc_new s1).
+    assert (Gl : hget (sh s2) l = Some (mkObj CLS_LIST KList [])) by (unfold s2, l; simpl; apply hget_app_new).
+    assert (Ky2 : kind_at (sh s2) y = Some KNamespace) by (eapply kind_ext; [apply ext_alloc | exact K1]).
+    assert (In' : Inv sn).
+    { apply inv_memo_set; [apply inv_note; exact I2 | exact Vl | left; change (n0 <= l < hlen (sh s2)); unfold l; lia
+                          | unfold l; intro; lia]. }
+    assert (Jn : Inv2 sn).
+    { apply inv2_memo_set; [|intros _; left; left; reflexivity].
+      apply inv2_note; [exact I2 | exact J2 | exact Vl | unfold l; lia | | |].
+      - apply (not_in_range_new s1 l J1). unfold l. lia.
+      - exists lo. eexists. split; [exact GL|]. split; [exact Gl|]. split; [rewrite CL; reflexivity|].
+        split; [rewrite KL; reflexivity|]. intros k0 v0 [].
+      - intros o ob' Ho Go.
+        assert (NE : forall k, bget (obody ob') k <> Some (R l)).
+        { intros k B. destruct (Z.eq_dec o l) as [E|E].
+          - subst o. rewrite Gl in Go. inversion Go; subst ob'. discriminate B.
+          - assert (R0 := hget_Some_range _ _ _ Go). rewrite L2 in R0.
+            assert (G0 : hget (sh s1) o = Some ob').
+            { unfold s2 in Go. simpl in Go. rewrite hget_app_old in Go by (unfold l in E; lia). exact Go. }
+            assert (X := fresh_refs_lt s1 o ob' k (R l) l I1 Ho G0 (bget_In _ _ _ B) (or_intror eq_refl)).
+            unfold l in X. lia. }
+        split; [intros _; apply NE|]. intros _. split; apply NE. }
+    assert (Kyn : kind_at (sh sn) y = Some KNamespace) by exact Ky2.
+    assert (Ixn : In (x, y) (sc sn)) by (right; exact IN1).
+    assert (I3 : Inv s3).
+    { apply inv_put; [exact In' | unfold y; lia | exact Logic.I | left; change (n0 <= l < hlen (sh s2)); unfold l; lia |].
+      eapply put_side_kind; [exact Kyn | intros _; discriminate | discriminate]. }
+    assert (J3 : Inv2 s3).
+    { apply inv2_put; [exact Jn | |].
+      - eapply justified_by with (x := x) (k := NM_TAXA) (v := R lt);
+          [exact Jn | exact Ixn | exact G | apply bget_In; exact BT | reflexivity | left; left; reflexivity].
+      - eapply priv_side_kind; [exact Kyn | intros _; discriminate | discriminate]. }
+    assert (E13 : Ext s1 s3).
+    { eapply ext_trans; [apply ext_alloc|]. eapply ext_trans; [apply ext_note|].
+      eapply ext_trans; [apply ext_memo_set | apply ext_put]. }
+    assert (F13 : Ext2 s1 s3).
+    { eapply ext2_trans' with (b := sn); [| |apply ext2_put].
+      - change (hlen (sh s1) <= hlen (sh s2)). lia.
+      - eapply ext2_trans' with (b := note s2 lt l); [change (hlen (sh s1) <= hlen (sh s2)); lia
+                                                     | apply ext2_alloc_note | apply ext2_memo_set]. }
+    assert (HL3 : hlen (sh s3) = hlen (sh s) + 2).
+    { unfold s3. rewrite put_hlen. change (hlen (sh s2) = hlen (sh s) + 2). lia. }
+    assert (U3 : (U s3 < f)%nat) by (eapply U_lt_ext; [exact E13 | exact Uf1]).
+    assert (Ix3 : In (x, y) (sc s3)) by (unfold s3; rewrite put_sc; exact Ixn).
+    assert (Il3 : In (lt, l) (sc s3)) by (unfold s3; rewrite put_sc; left; reflexivity).
+    assert (TAXAKEY : In (NM_TAXA, R l) (body_of s3 y)).
+    { destruct (kind_at_exists _ _ _ Kyn) as [oy Gy]. apply put_adds_key. eauto. }
+    destruct (copy_append rec s3 l 0 (values (body_of s3 lt))) as [s4| |] eqn:LP; simpl in H; try discriminate.
+    destruct (plain_fields rec [NM_ANN; NM_TAXA] s4 y (obody ob)) as [s5| |] eqn:LF; simpl in H; try discriminate.
+    destruct (deep_copy_annotations_from rec s5 y x) as [s6| |] eqn:DC; simpl in H; try discriminate.
+    inversion H; subst s' v'. clear H.
+    rewrite (body_of_old h0 seeds s3 lt I3) in LP by lia. rewrite GL in LP.
+    destruct (copy_append2 (values (obody lo)) rec f s3 l 0 KList lt lo RB I3 J3 U3) with (s' := s4) as [L34 KPl]; auto.
+    { unfold l. lia. }
+    { unfold s3. rewrite put_kind. exact K2. }
+    { split; [reflexivity | discriminate]. }
+    { apply (old_values_vsrc2 lt lo GL). rewrite KL. reflexivity. }
+    { apply (list_source_entries lt lo GL). left. exact KL. }
+    assert (Ky4 : kind_at (sh s4) y = Some KNamespace).
+    { eapply kind_ext; [exact (l_ext _ _ L34)|]. unfold s3. rewrite put_kind. exact Kyn. }
+    destruct (plain_fields2 (obody ob) rec f [NM_ANN; NM_TAXA] s4 y KNamespace x ob RB (l_inv _ _ L34) (l_inv2 _ _ L34))
+      with (s' := s5) as [L45 KPy]; auto.
+    { eapply U_lt_ext; [exact (l_ext _ _ L34) | exact U3]. }
+    { unfold y. lia. }
+    { discriminate. }
+    { intros _. left. reflexivity. }
+    { eapply old_fields; [exact Hclosed | exact Hkeys | exact G | tauto]. }
+    { intros k v IN NS. destruct (old_entry_vsrc2 x ob k v G IN) as [_ X]; [|exact X].
+      intros [_ C]. subst k. simpl in NS. discriminate NS. }
+    { apply (proj1 (l_ext2 _ _ L34)). exact Ix3. }
+    assert (L35 : Loop2 s3 s5) by (eapply loop2_trans; eassumption).
+    assert (L56 : Loop2 s5 s6).
+    { eapply dcaf2 with (kd := KNamespace) (sob := ob); try eassumption.
+      - exact (l_inv _ _ L45).
+      - exact (l_inv2 _ _ L45).
+      - eapply U_lt_ext; [exact (l_ext _ _ L35) | exact U3].
+      - destruct (l_ext _ _ L35) as [LL _]. unfold y. lia.
+      - eapply kind_ext; [exact (l_ext _ _ L45) | exact Ky4].
+      - reflexivity.
+      - apply (proj1 (l_ext2 _ _ L35)). exact Ix3.
+      - rewrite KO. reflexivity. }
+    assert (L36 : Loop2 s3 s6) by (eapply loop2_trans; eassumption).
+    assert (F03 : Ext2 s s3) by (eapply ext2_trans'; [|exact F1 | exact F13]; lia).
+    split; [exact (l_inv2 _ _ L36)|]. split; [|split].
+    + eapply ext2_trans'; [|exact F03 | exact (l_ext2 _ _ L36)]. lia.
+    + left. apply (proj1 (l_ext2 _ _ L36)). exact Ix3.
+    + eapply newpresent_frame with (sa := s3); [exact F03 | lia | exact (l_new _ _ L36) |].
+      intros a b I Hb.
+      assert (Ix6 : In (x, y) (sc s6)) by (apply (proj1 (l_ext2 _ _ L36)); exact Ix3).
+      assert (Il6 : In (lt, l) (sc s6)) by (apply (proj1 (l_ext2 _ _ L36)); exact Il3).
+      assert (CASES : b = y \/ b = l) by (unfold y, l; lia).
+      destruct CASES as [E|E]; subst b.
+      * assert (a = x) by (eapply (j_uniq _ (l_inv2 _ _ L36)); eassumption). subst a.
+        eapply present_from_keys; [exact G|]. intros k v Ik.
+        destruct (val_eqb k NM_ANN) eqn:EA.
+        { left. left. rewrite KO. split; [reflexivity | apply val_eqb_eq; exact EA]. }
+        right. destruct (val_eqb k NM_TAXA) eqn:ETX.
+        -- apply val_eqb_eq in ETX. subst k.
+           destruct (key_persists s3 s6 y NM_TAXA (R l) (l_ext2 _ _ L36) TAXAKEY) as [v1 IK1].
+           exists NM_TAXA, v1. split; [exact IK1 | reflexivity].
+        -- destruct (KPy k v Ik) as [v1 IK1]; [simpl; rewrite EA, ETX; reflexivity|].
+           destruct (key_persists s5 s6 y k v1 (l_ext2 _ _ L56) IK1) as [v2 IK2].
+           exists k, v2. split; [exact IK2|].
+           destruct (Hkeys x ob k v G ltac:(tauto) Ik) as [p Ep]. subst. reflexivity.
+      * assert (a = lt) by (eapply (j_uniq _ (l_inv2 _ _ L36)); eassumption). subst a.
+        eapply present_from_keys; [exact GL|]. eapply list_keysok; [exact GL | left; exact KL |].
+        eapply keysok_list_ext with (s := s4); [|exact KPl].
+        eapply ext2_trans'; [|exact (l_ext2 _ _ L45) | exact (l_ext2 _ _ L56)].
+        destruct (l_ext _ _ L45). assumption.
+  - (* KCDict *)
+    destruct (new_copy s x ob) as [s1 y] eqn:NC. cbn [fst snd] in *. subst y.
+    destruct (copy_entries rec false s1 (hlen (sh s)) (obody ob)) as [s2| |] eqn:LP; simpl in H; try discriminate.
+    inversion H; subst s' v'. clear H.
+    destruct (copy_entries2 (obody ob) rec f false s1 (hlen (sh s)) KCDict x ob RB I1 J1 Uf1) with (s' := s2) as [L2 KP]; auto.
+    + split; [reflexivity | discriminate].
+    + apply (old_entries_vsrc2 x ob G). rewrite KO. reflexivity.
+    + eapply frame_finish; try eassumption. intros k v I. right. apply (KP k v I).
 Qed.
 
 End Iso.
